@@ -9,7 +9,7 @@ ID = "C13"
 LEVEL = "exploration"
 TECHNIQUE = "reference-model monitor: brute-force CFG membership / parse-tree oracle and textbook FIRST + canonical LR(1) (R6) vs the real table generator and parser driver on random small grammars with all short inputs, under ASan+UBSan"
 FLAVOURS = [("asan", "generated")]
-RULE = ("random context-free grammars (<= 3 non-terminals, <= 3 terminals, <= 9 rules, right-hand sides <= 5 symbols, with epsilon rules, left/right "
+RULE = ("random context-free grammars (<= 3 non-terminals, <= 3 terminals, <= 9 rules; plus larger ones with 4-6 non-terminals rich in unit and epsilon rules, short inputs; right-hand sides <= 5 symbols, with epsilon rules, left/right "
         "recursion, useless and rule-less symbols), each in full or prefix mode, with ALL end-marked inputs up to length L (quick 5, thorough 7) over "
         "the terminals up to the largest index used; conflict-free grammar: accept iff the input (prefix mode: some prefix) is in the language and "
         "the returned value is the fold of the unique tree (children last-first); ambiguous grammar (>= 2 trees for some input or a derivation "
@@ -22,10 +22,33 @@ ASSUMPTIONS = ["R6 (vlib/ref/lr.py, cfg.py): membership and trees by exhaustive 
 def plan(tier, seed):
     n = 6000 if tier == "quick" else 40000
     L_ = 5 if tier == "quick" else 7
-    return [{"seed": seed, "chunk": i, "n": 200, "L": L_} for i in range(n // 200)]
+    specs = [{"seed": seed, "chunk": i, "n": 200, "L": L_, "big": False} for i in range(n // 200)]
+    # larger grammars (4-6 non-terminals, many unit and epsilon rules: nullability has to travel through forward
+    # references over several fixpoint rounds); short inputs only, the weight is on FIRST and on membership of short words
+    m = 4000 if tier == "quick" else 40000
+    specs += [{"seed": seed, "chunk": 100000 + i, "n": 200, "L": 3 if tier == "quick" else 4, "big": True} for i in range(m // 200)]
+    return specs
 
 
-def gen(rnd):
+def gen(rnd, big=False):
+    if big:
+        nnt = rnd.randint(4, 6)
+        nt = rnd.randint(1, 2)
+        rules = []
+        for a in range(nnt):
+            for _ in range(rnd.randint(1, 2)):
+                q = rnd.random()
+                if q < 0.2:
+                    rhs = ()
+                elif q < 0.55:
+                    rhs = (("n", rnd.randrange(nnt)),)
+                elif q < 0.8:
+                    rhs = (("n", rnd.randrange(nnt)), ("t", rnd.randint(1, nt))) if rnd.random() < 0.5 else (("n", rnd.randrange(nnt)), ("n", rnd.randrange(nnt)))
+                else:
+                    rhs = tuple((("t", rnd.randint(1, nt)) if rnd.random() < 0.5 else ("n", rnd.randrange(nnt))) for _ in range(rnd.randint(1, 3)))
+                if (a, rhs) not in rules:
+                    rules.append((a, rhs))
+        return nnt, nt, rules
     nnt = rnd.randint(1, 3)
     nt = rnd.randint(1, 3)
     rules = []
@@ -68,7 +91,7 @@ def work(spec):
     cases = []
     L_ = spec["L"]
     for g in range(spec["n"]):
-        nnt, nt, rules = gen(rnd)
+        nnt, nt, rules = gen(rnd, spec.get("big", False))
         prefix = rnd.randint(0, 1)
         maxt = max([s[1] for l, r in rules for s in r if s[0] == "t"] + [0])
         lim = L_ if maxt <= 2 else min(L_, 5 if L_ <= 5 else 6)
